@@ -8,7 +8,7 @@ import re
 from ..cfg import build_cfg, calls_in, node_calls
 from ..core import Ctx, property_info, rule
 from ..model import AnalysisError, ClassInfo, FuncInfo, const_str, walk_no_nested
-from ..q import A, Dispatch, polar_forms, cmp_atom, leaf_conditions, reach_table, value_texts, call_name_of, control_deps, flow_conditions, flows, names_from_calls, node_containing, raw_forms, expand_at, str_template, stores, unparse
+from ..q import A, leaves_at, L, expand, Dispatch, polar_forms, cmp_atom, leaf_conditions, reach_table, value_texts, call_name_of, control_deps, flow_conditions, flows, names_from_calls, node_containing, raw_forms, expand_at, str_template, stores, unparse
 
 DT = "xsdata.models.datatype"
 DATES = "xsdata.utils.dates"
@@ -52,8 +52,16 @@ def _parse_calls(fi: FuncInfo) -> list[tuple[ast.Call, str]]:
             a = c.args[1]
             if isinstance(a, ast.Attribute) and isinstance(a.value, ast.Name) and a.value.id == "DateFormat":
                 out.append((c, a.attr))
-            else:
-                out.append((c, "?"))
+                continue
+            # the format reaches the call through locals / the parameter of an inlined helper / a tuple returned by a helper: one entry
+            # per constant that can flow in; "?" = a value the rule cannot read (no instance), "?literal" = a text literal (not a constant)
+            for leaf in leaves_at(fi, c, a) or [a]:
+                if isinstance(leaf, ast.Attribute) and isinstance(leaf.value, ast.Name) and leaf.value.id == "DateFormat":
+                    out.append((c, leaf.attr))
+                elif isinstance(leaf, ast.Constant) and isinstance(leaf.value, str):
+                    out.append((c, "?literal"))
+                else:
+                    out.append((c, "?"))
     return out
 
 
@@ -71,6 +79,9 @@ def validate_before_construct(ctx: Ctx) -> None:
             raise AnalysisError(f"C06.R1: no parse_date_args call in {fi.qual}")
         dirs: set[str] = set()
         for _, name in pcs:
+            if name == "?":
+                ctx.abstain(f"format passed to parse_date_args in {fi.qual.split(':')[1]}", at=fi, why="the format argument is computed, not a DateFormat constant that can be followed")
+                continue
             if name not in fmts:
                 ctx.ob(f"{fi.qual.split(':')[1]}: format constant {name} known", False, at=fi, construct=f"format {name}", msg="format is not a DateFormat constant")
                 continue
@@ -305,11 +316,16 @@ def directive_coverage(ctx: Ctx) -> None:
     fmts = _date_formats(ctx)
     handled, yields, else_raises = _scanner_table(ctx)
     used = sorted({d for f in fmts.values() for d in _directives(f)})
+    if not handled:
+        ctx.abstain("directive branches of DateTimeParser.parse_var", at=ctx.repo.func(f"{DATES}:DateTimeParser.parse_var"),
+                    why="parse_var does not branch on the directive letter (a table / getattr dispatch): the per-letter behaviour cannot be read from its control flow")
+        used = []
     for d in used:
         ctx.ob(f"directive %{d} handled by the scanner", d in handled, at=ctx.repo.func(f"{DATES}:DateTimeParser.parse_var"), construct=f"directive {d}",
                msg=f"%{d} occurs in a DateFormat constant but parse_var has no branch for it")
-    ctx.ob("parse_var: unknown directive raises", else_raises, at=ctx.repo.func(f"{DATES}:DateTimeParser.parse_var"), construct="else raises",
-           msg="unknown directive silently ignored")
+    if handled:
+        ctx.ob("parse_var: unknown directive raises", else_raises, at=ctx.repo.func(f"{DATES}:DateTimeParser.parse_var"), construct="else raises",
+               msg="unknown directive silently ignored")
     # literal characters of the format are matched exactly by skip()
     p = ctx.repo.func(f"{DATES}:DateTimeParser.parse")
     gp = build_cfg(p.node)
@@ -382,8 +398,14 @@ def arity_agreement(ctx: Ctx) -> None:
     for fi in ctx.repo.funcs_in(DT, "xsdata.formats.converter"):
         for c, name in _parse_calls(fi):
             n += 1
+            if name == "?":
+                ctx.abstain(f"format passed to parse_date_args in {fi.qual.split(':')[1]}", at=fi, why="the format argument is computed, not a DateFormat constant that can be followed")
+                continue
             if name not in fmts:
                 ctx.ob(f"{fi.qual.split(':')[1]}: format {name} is a DateFormat constant", False, at=fi, node=c, msg="unknown format constant")
+                continue
+            if not handled:
+                ctx.abstain(f"unpack arity of DateFormat.{name} in {fi.qual.split(':')[1]}", at=fi, why="the scanner's yields per directive cannot be read (no branch per letter)")
                 continue
             expected = sum(yields.get(d, 0) for d in _directives(fmts[name]))
             # find the unpacking assignment of this call
@@ -524,6 +546,13 @@ def argument_name_agreement(ctx: Ctx) -> None:
     ctx.floor("component arguments", n, 60)
 
 
+def _cval(fi: FuncInfo, x: ast.AST):
+    """The value of a literal, or of a module-level constant named by ``x`` (None otherwise)."""
+    if isinstance(x, ast.Name) and isinstance(fi.module.globals.get(x.id), ast.Constant):
+        x = fi.module.globals[x.id]
+    return x.value if isinstance(x, ast.Constant) else None
+
+
 SPEC_RANGES = {
     "month": (1, 12), "hour": (0, 24), "minute": (0, 59), "second": (0, 59), "franctional_second": (0, 999999999), "fractional_second": (0, 999999999),
 }
@@ -549,7 +578,8 @@ def range_tables(ctx: Ctx) -> None:
     ml = ctx.repo.func(f"{DATES}:monthlen")
     body = list(walk_no_nested(ml.node))
     sub = [x for x in body if isinstance(x, ast.Subscript) and unparse(x.value) == "mdays" and unparse(x.slice) == "month"]
-    feb = [c for c in body if isinstance(c, ast.Compare) and len(c.ops) == 1 and isinstance(c.ops[0], ast.Eq) and {unparse(c.left), unparse(c.comparators[0])} == {"month", "2"}]
+    feb = [c for c in body if isinstance(c, ast.Compare) and len(c.ops) == 1 and isinstance(c.ops[0], ast.Eq)
+           and {"month" if unparse(x) == "month" else _cval(ml, x) for x in (c.left, c.comparators[0])} == {"month", 2}]
     leap = [c for c in body if isinstance(c, ast.Call) and call_name_of(c) == "isleap" and c.args and unparse(c.args[0]) == "year"]
     other_cmp = [c for c in body if isinstance(c, ast.Compare) and c not in feb]
     ok = bool(sub) and bool(feb) and bool(leap) and not other_cmp
@@ -645,7 +675,25 @@ def range_tables(ctx: Ctx) -> None:
         return out
 
     ok = "'-'" in dpo.keys and bool(_negations(dpo.specific("'-'"))) and not _negations(dpo.under("'+'")) if "'+'" in dpo.keys else ("'-'" in dpo.keys and bool(_negations(dpo.specific("'-'"))) and not _negations(dpo.under(None)))
-    ctx.ob("parse_offset: '-' negates the whole offset, '+' keeps it", ok, at=po, construct="offset sign parse", msg="sign handling of the scanned offset changed")
+    if "'-'" not in dpo.keys:
+        # no test of the sign character: the sign may come from a constant table looked up with it ({"+": 1, "-": -1}[ctrl] / .get(ctrl))
+        tabs = []
+        for x in walk_no_nested(po.node):
+            tname = key_e = None
+            if isinstance(x, ast.Subscript) and isinstance(x.value, ast.Name):
+                tname, key_e = x.value.id, x.slice
+            elif isinstance(x, ast.Call) and isinstance(x.func, ast.Attribute) and x.func.attr == "get" and isinstance(x.func.value, ast.Name) and x.args:
+                tname, key_e = x.func.value.id, x.args[0]
+            tab = po.module.globals.get(tname or "")
+            if isinstance(tab, ast.Dict) and isinstance(key_e, ast.Name) and key_e.id in ctrl:
+                tabs.append({k.value: unparse(v) for k, v in zip(tab.keys, tab.values) if isinstance(k, ast.Constant)})
+        if tabs:
+            ctx.ob("parse_offset: '-' negates the whole offset, '+' keeps it", all(t.get("-") == "-1" and t.get("+") == "1" for t in tabs), at=po, construct="offset sign parse",
+                   msg=f"sign table changed: {tabs}")
+        else:
+            ctx.abstain("offset sign handling of parse_offset", at=po, why="the sign character is neither tested nor looked up in a constant table")
+    else:
+        ctx.ob("parse_offset: '-' negates the whole offset, '+' keeps it", ok, at=po, construct="offset sign parse", msg="sign handling of the scanned offset changed")
     g = build_cfg(fo.node)
     signs: dict[str, set[tuple[str, bool]]] = {}
     for r in g.returns():
@@ -655,8 +703,29 @@ def range_tables(ctx: Ctx) -> None:
                 for sl, sc in flows(fo, g.nodes[chain[-1].id] if chain else r, t[0][1]):
                     if isinstance(sl, ast.Constant) and sl.value in ("-", "+"):
                         signs[sl.value] = flow_conditions(fo, r, [*chain, *sc])
+                    # SIGNS[offset < 0] with a module-level pair of constants: index 1 is the true case
+                    tab = fo.module.globals.get(sl.value.id) if isinstance(sl, ast.Subscript) and isinstance(sl.value, ast.Name) else None
+                    if isinstance(tab, (ast.Tuple, ast.List)) and len(tab.elts) == 2 and all(isinstance(e, ast.Constant) and e.value in ("-", "+") for e in tab.elts):
+                        idx = expand(fo.node, sl.slice)
+                        txt = L(fo, idx)
+                        if isinstance(idx, ast.Compare) and txt in ("_<0", "_>=0"):
+                            signs[tab.elts[1].value] = {(txt, True)}
+                            signs[tab.elts[0].value] = {(txt, False)}
     neg = lambda conds, want: any((t == "_<0" and pol == want) or (t == "_>=0" and pol != want) for t, pol in conds)  # noqa: E731
-    ctx.ob("format_offset: '-' exactly for negative offsets", set(signs) == {"-", "+"} and neg(signs["-"], True) and neg(signs["+"], False), at=fo, construct="offset sign format", msg="sign of the formatted offset changed")
+    # the head of the text comes from a lookup the rule cannot read (a table / mapping it does not know): no instance.  Anything else that is
+    # not a '+' / '-' constant (e.g. a number formatted with a sign flag, which prints +00:30 for -30 minutes) is a different decision
+    head_lookup = False
+    for r in g.returns():
+        for leaf, chain in flows(fo, r, r.ast.value):
+            t = str_template(leaf)
+            if t and t[0][0] == "hole":
+                for sl, _sc in flows(fo, g.nodes[chain[-1].id] if chain else r, t[0][1]):
+                    if (isinstance(sl, ast.Subscript) and isinstance(sl.value, (ast.Name, ast.Attribute))) or (isinstance(sl, ast.Call) and isinstance(sl.func, ast.Attribute) and sl.func.attr == "get"):
+                        head_lookup = True
+    if not signs and head_lookup:
+        ctx.abstain("sign character of format_offset", at=fo, why="the head of the returned text is looked up in a table the rule cannot read")
+    else:
+        ctx.ob("format_offset: '-' exactly for negative offsets", set(signs) == {"-", "+"} and neg(signs["-"], True) and neg(signs["+"], False), at=fo, construct="offset sign format", msg="sign of the formatted offset changed")
     zret = [n for n in g.returns() if const_str(n.ast.value) == "Z"]
     ctx.ob("format_offset: 'Z' exactly for offset 0", bool(zret) and all(any(t == "_==0" and pol for t, pol, _ in control_deps(fo, n)) for n in zret), at=fo, construct="Z for UTC", msg="UTC designator changed")
     zn = [n for n in dpo.specific("'Z'") if n.kind == "stmt" and isinstance(n.ast, ast.Return)] if "'Z'" in dpo.keys else []
@@ -681,7 +750,11 @@ def range_tables(ctx: Ctx) -> None:
                construct=f"{cq} stdlib conversion", msg="conversion to/from datetime loses the fraction or the offset")
     co = ctx.repo.func(f"{DATES}:calculate_offset")
     ct = ctx.repo.func(f"{DATES}:calculate_timezone")
-    ok = any(isinstance(x, ast.Call) and call_name_of(x) == "total_seconds" for x in ast.walk(co.node)) and any(isinstance(x, ast.BinOp) and isinstance(x.op, ast.FloorDiv) and isinstance(x.right, ast.Constant) and x.right.value == 60 for x in ast.walk(co.node)) \
+    def _by60(x: ast.AST) -> bool:  # seconds // 60, or the quotient of divmod(seconds, 60) - 60 written as a literal or a module constant
+        return (isinstance(x, ast.BinOp) and isinstance(x.op, ast.FloorDiv) and _cval(co, x.right) == 60) or (
+            isinstance(x, ast.Call) and call_name_of(x) == "divmod" and len(x.args) == 2 and _cval(co, x.args[1]) == 60)
+
+    ok = any(isinstance(x, ast.Call) and call_name_of(x) == "total_seconds" for x in ast.walk(co.node)) and any(_by60(x) for x in ast.walk(co.node)) \
         and any(isinstance(x, ast.Call) and call_name_of(x) == "timedelta" and [k.arg for k in x.keywords] == ["minutes"] and not x.args for x in ast.walk(ct.node))
     ctx.ob("calculate_offset / calculate_timezone use minutes on both sides", ok,
            at=co, construct="offset units", msg="offset units differ between the two conversions")
@@ -695,12 +768,12 @@ def day_number_steps_in_order(ctx: Ctx) -> None:
     # the operand the 400-year era is split from (x // 400, x % 400, divmod(x, 400)) must be the year shifted by one under month <= 2
     operands: list[tuple[ast.AST, ast.expr]] = []
     for x in walk_no_nested(fi.node):
-        if isinstance(x, ast.BinOp) and isinstance(x.op, (ast.FloorDiv, ast.Mod)) and isinstance(x.right, ast.Constant) and x.right.value == 400:
+        if isinstance(x, ast.BinOp) and isinstance(x.op, (ast.FloorDiv, ast.Mod)) and _cval(fi, x.right) == 400:
             operands.append((x, x.left))
-        elif isinstance(x, ast.Call) and isinstance(x.func, ast.Name) and x.func.id == "divmod" and len(x.args) == 2 and isinstance(x.args[1], ast.Constant) and x.args[1].value == 400:
+        elif isinstance(x, ast.Call) and isinstance(x.func, ast.Name) and x.func.id == "divmod" and len(x.args) == 2 and _cval(fi, x.args[1]) == 400:
             operands.append((x, x.args[0]))
     if not operands:
-        raise AnalysisError("C06.R8: the 400-year era split of _days_from_civil was not found")
+        ctx.abstain("the 400-year era split of _days_from_civil", at=fi, why="no `// 400`, `% 400` or divmod(_, 400) in the function")
     for where, op in operands:
         n = node_containing(g, where)
         fl = flows(fi, n, op) if n is not None else []
@@ -752,6 +825,7 @@ def gyear_shape_ignores_the_offset(ctx: Ctx) -> None:
                 seen += 1
                 params = {a.arg for a in fi.params}
                 whole = isinstance(recv, ast.Name) and any(isinstance(leaf, ast.Name) and leaf.id in params and not chain for leaf, chain in flows(fi, t, recv))
+                whole = whole and len(c.args) < 3  # s.rfind("-", start, end) searches a bounded part of the literal
                 ctx.ob("_parse_period looks for the month separator in the literal without its timezone offset", not whole, at=fi, node=t.ast, construct="month separator search",
                        msg="the '-' is searched in the whole literal: a gYear with a negative offset (2001-05:00) is taken for a gYearMonth and rejected")
             if seen:
